@@ -150,10 +150,18 @@ def tlc(module, cfg=None, workers=None, timeout=900, coverage=False, simulate=No
             except Exception:
                 pass
     if coverage:
-        for mm in re.finditer(r"^<(\w+) line \d+, col \d+ to line \d+, col \d+ of module (\w+)>: (\d+):(\d+)",
+        for mm in re.finditer(r"^<(\w+) line \d+, col \d+ to line \d+, col \d+ of module (\w+)(?: \([\d ]+\))?>: (\d+):(\d+)",
                               out, re.M):
             res.coverage[mm.group(1)] = (int(mm.group(3)), int(mm.group(4)))
     return res
+
+
+def require_coverage(res, actions, what):
+    """non-vacuity: every named action of the specification was taken at least once in this TLC run"""
+    missing = [a for a in actions if res.coverage.get(a, (0, 0))[1] == 0]
+    if missing:
+        raise MachineryError(f"vacuous model-checking run {what}: actions never taken: {missing} (coverage {res.coverage})")
+    return {a: dict(distinct=res.coverage[a][0], taken=res.coverage[a][1]) for a in actions}
 
 
 def require_tlc_ok(res, what):
